@@ -236,17 +236,28 @@ func (sr *searcher) dfs(s *mstate) bool {
 // model shows this observation) or "budget".
 func FindSchedule(p *Prog, obs *Observation, budget int) ([]move, string, int) {
 	sr := &searcher{p: p, ids: numberOps(p), obs: obs, seen: map[string]struct{}{}, budget: budget, prot: protectedCells(p)}
-	sr.g = &guide{want: make([][]logEntry, len(p.Code))}
+	want := make([][]logEntry, len(p.Code))
 	if !obs.Crash {
 		for i := range p.Code {
 			if i < len(obs.Fin) && obs.Fin[i] {
-				sr.g.want[i] = obs.Logs[i]
-				if sr.g.want[i] == nil {
-					sr.g.want[i] = []logEntry{}
+				want[i] = obs.Logs[i]
+				if want[i] == nil {
+					want[i] = []logEntry{}
 				}
 			}
 		}
 	}
+	strict := make([]bool, len(p.Caps))
+	if !obs.Crash {
+		all := true
+		for _, f := range obs.Fin {
+			all = all && f
+		}
+		for c := range strict {
+			strict[c] = all && c < len(obs.Lens) && obs.Lens[c] == 0
+		}
+	}
+	sr.g = newGuide(want, len(p.Caps), strict, staticUnique(p))
 	if sr.dfs(initState(p)) {
 		return append([]move(nil), sr.path...), "found", sr.nodes
 	}
